@@ -3,6 +3,7 @@
   Theorems over `Router.handleReq` / `Router.handle` for every rule list, query and upstream behaviour.
   (Start-up validation of tags / unknown keys is checked by the `loadcfg` correspondence runs.)
 -/
+import MosVerif.Props.C10Pins
 import MosVerif.Lemmas.RouterBasic
 import MosVerif.Lemmas.RouterSpecMain
 import MosVerif.Model.RouterIO
